@@ -318,13 +318,8 @@ func (r *Resolver) Resolve(ctx context.Context, name string) (ResolveResult, err
 		}
 		return result, nil
 	}
-	if len(name) > 255 {
+	if !validName(name) {
 		return result, ErrInvalidName
-	}
-	for _, p := range strings.Split(name, ".") {
-		if len(p) > 63 {
-			return result, ErrInvalidName
-		}
 	}
 
 	if r.insecureUseGoResolver {
@@ -349,6 +344,9 @@ func (r *Resolver) Resolve(ctx context.Context, name string) (ResolveResult, err
 		svcbName = fmt.Sprintf("_%d._%s.%s", result.Port, scheme, name)
 	} else if scheme != "https" {
 		svcbName = fmt.Sprintf("_%s.%s", scheme, name)
+	}
+	if !validName(svcbName) {
+		return result, ErrInvalidName
 	}
 
 	// First, resolve HTTPS Aliases.
@@ -422,6 +420,20 @@ func (r *Resolver) Resolve(ctx context.Context, name string) (ResolveResult, err
 		result.Address = append(result.Address, v.(net.IP))
 	}
 	return result, nil
+}
+
+// validName reports whether name fits in a DNS message: at most 255 bytes,
+// labels of at most 63 bytes.
+func validName(name string) bool {
+	if len(name) > 255 {
+		return false
+	}
+	for _, p := range strings.Split(name, ".") {
+		if len(p) > 63 {
+			return false
+		}
+	}
+	return true
 }
 
 func (r *Resolver) resolveTarget(ctx context.Context, name string, res *ResolveResult) error {
